@@ -25,6 +25,9 @@ type Case struct {
 	// Prelude: a disturbing call sequence on other objects (sut.Disturb: failing Len() calls in the middle
 	// of a literal, failing loads ...) run before the case
 	Prelude int `json:"prelude,omitempty"`
+	// Whole: S is a complete schema and nothing else (printed from a model whose rules hold, or a hand-written
+	// text of that kind): if it is refused nevertheless, a shorter prefix must not be accepted in its place
+	Whole bool `json:"whole,omitempty"`
 }
 
 func lenOf(p sut.Project) (n uint, e *sut.ErrInfo, esc *sut.Escape) {
@@ -105,6 +108,14 @@ func oracle(c Case) *ev.Verdict {
 	if len(o.Escapes) > 0 {
 		e := o.Escapes[0]
 		return ev.V("panic:"+e.Op+":"+e.Frame, "%s panicked on %q: %s", e.Op, S, e.Value)
+	}
+	if c.Whole && o.Check != nil && len(o.AddErr) == 0 && o.LenErr == nil && int(o.Len) < len(strings.TrimRight(S, " \t\r\n")) {
+		// S is refused and Len() ends the schema before the end of S: "the prefix is accepted or rejected exactly like S"
+		pp := c.Project
+		pp.Root = S[:o.Len]
+		if po := sut.Observe(pp); po.Check == nil && len(po.Escapes) == 0 && po.AST != "" {
+			return ev.V("prefix:accepted-while-whole-refused:"+rootKind(S), "S = %q is a complete schema and is refused (%s); Len(S) = %d and that prefix %q is accepted", S, o.Check, o.Len, S[:o.Len])
+		}
 	}
 	if o.Check != nil || len(o.AddErr) > 0 || o.AST == "" || strings.Contains(o.AST, `"TokenType":""`) {
 		ev.Excluded("len", "schema not accepted or without a root value")
@@ -202,7 +213,7 @@ func genCase(t *rapid.T) Case {
 	lay.Trail = rapid.SampledFrom([]int{0, 0, 0, 1}).Draw(t, "trail")
 	sp := p.Text(lay)
 	nl, tr := trailers(t)
-	return Case{Project: sp, NL: nl, Trailer: tr}
+	return Case{Project: sp, NL: nl, Trailer: tr, Whole: true}
 }
 
 func nontrivial(c Case) bool {
@@ -337,6 +348,7 @@ func TestPropFirstBytes(t *testing.T) {
 	registerAll()
 	ev.KeepFirst("first-bytes")
 	types := []sut.Named{{Name: "@a", Text: "1"}, {Name: "@b", Text: `"x"`}}
+	rules := []sut.Named{{Name: "@colors", Text: "[\"red\", \"green\"]"}}
 	roots := []string{"1", "-1.5", `"s"`, "true", "null", "{}", "[]", "{\n  \"a\": 1\n}", "[\n  1,\n  2\n]", "@a", "@a | @b", "1 // {min: 1}", "1 // note", "1 /* {min: 1} */", "{} // {additionalProperties: true}",
 		"{\n  \"a\": 1 // {min: 1} - n\n}", "[\n  1 /* {min: 1}\n */\n]", "1 # c", "{} # c", "1 // n # c", "@a // note", "@a | @b // note", "{\n  @b: 1\n}",
 		// user comments inside and after annotations, glued roots (whatever of these the library accepts is judged)
@@ -344,7 +356,11 @@ func TestPropFirstBytes(t *testing.T) {
 		"12/* {min: 1} */", "12# c", "\"s\"// n", "true# c", "null/* n */", "{}// n", "[]# c", "@a// n", "@a# c", "@a|@b// n", "{ // {additionalProperties: true ### c ###}\n}",
 		"[ // {minItems: 0 ### c ###}\n]", "{\n  \"a\": 1 // {min: 1 ### c ### }\n}", "1 // n ### c ###", "1 ### c ### // n", "1 ### a ### ### b ###",
 		// a rules annotation that ends in a bare dash, comments made of hashes only
-		"1 // {min: 0} -", "1 // {min: 0} - ", "[] // {minItems: 0} -\t", "{} // {} -", "1 /* {min: 0} - */", "{}\n#####", "1 #####", "{} ######", "1\n#####\n", "[]\n###\n###", "1 # #", "1 #\t"}
+		"1 // {min: 0} -", "1 // {min: 0} - ", "[] // {minItems: 0} -\t", "{} // {} -", "1 /* {min: 0} - */", "{}\n#####", "1 #####", "{} ######", "1\n#####\n", "[]\n###\n###", "1 # #", "1 #\t",
+		// annotations without any text, named enum rules in a root annotation (with and without a note, glued and spaced)
+		"{\n  \"id\": 1\n} //", "42 // \t", "42 //", "@a | @b //", "[] //  ", "42 /**/", "42 /* */",
+		"\"red\" // {enum: @colors}", "\"red\" // {enum: @colors} - the colour", "\"red\" // {enum: @colors }", "\"red\" // { enum: @colors} ", "\"red\" /* {enum: @colors} - the colour */",
+		"{\n  \"c\": \"red\" // {enum: @colors} - the colour\n}", "\"red\" // {minLength: 1, enum: @colors} - n"}
 	var n, nt, bad int64
 	idx := 0
 	for _, r := range roots {
@@ -361,7 +377,7 @@ func TestPropFirstBytes(t *testing.T) {
 					if ev.Quick() && rest == "x" {
 						continue
 					}
-					c := Case{Project: sut.Project{Root: r, Types: types}, NL: nl, Trailer: string([]byte{byte(b)}) + rest}
+					c := Case{Project: sut.Project{Root: r, Types: types, Rules: rules}, NL: nl, Trailer: string([]byte{byte(b)}) + rest, Whole: strings.Contains(r, "@colors")}
 					n++
 					nt++
 					if v := oracle(c); v != nil && ev.Report("first-bytes", c, v) {
